@@ -954,8 +954,13 @@ class FortranReaderBase:
             ):
                 # ;-separator not recognized in pyf-mode
                 items = []
-                # Deal with each Fortran statement separately.
-                split_line_iter = iter(item.get_line().split(";"))
+                # Deal with each Fortran statement separately. The line
+                # returned by get_line() has been lower-cased (outside of
+                # character strings), so split a tokenised version of the
+                # original text instead, in order to keep the case of
+                # names as written.
+                tokenised, repmap = string_replace_map(item.line, lower=False)
+                split_line_iter = iter(tokenised.split(";"))
                 first = next(split_line_iter)
                 # The full line has already been processed as a Line
                 # object in 'item' (and may therefore have label
@@ -967,7 +972,7 @@ class FortranReaderBase:
                 # statement (rather than the full line). Subsequent
                 # statements need to be processed into Line
                 # objects.
-                items.append(item.copy(first.strip(), apply_map=True))
+                items.append(item.copy(repmap(first.strip())))
                 for line in split_line_iter:
                     # Any subsequent statements have not been processed
                     # before, so new Line objects need to be created.
@@ -981,7 +986,7 @@ class FortranReaderBase:
                         # using the existing span (line numbers) and
                         # reader.
                         new_line = Line(
-                            item.apply_map(line), item.span, label, name, item.reader
+                            repmap(line), item.span, label, name, item.reader
                         )
                         items.append(new_line)
                 items.reverse()
